@@ -5,7 +5,7 @@
 using namespace rg;
 
 // a case = table + storage content + touched marks + one block write
-struct Case { TableD t; std::vector<std::vector<uint16_t>> content; std::vector<bool> touched; uint32_t addr; uint32_t n; std::vector<uint16_t> words; int pre = 0; int view = 0; };   // view 1: a second table (another view over the same area array, with a few more registers) is initialised after this one   // pre k > 0: before the write register_sanitise ran while the callback-backed areas' device stopped answering after k-1 reads
+struct Case { TableD t; std::vector<std::vector<uint16_t>> content; std::vector<bool> touched; uint32_t addr; uint32_t n; std::vector<uint16_t> words; int pre = 0; int view = 0; unsigned lock = 0; };   // view 1: a second table (another view over the same area array, with a few more registers) is initialised after this one   // pre k > 0: before the write register_sanitise ran while the callback-backed areas' device stopped answering after k-1 reads
 static Case g_cur;
 static std::string ser_case(const Case &c) {
     std::string s = rm::ser(c.t);
@@ -13,6 +13,7 @@ static std::string ser_case(const Case &c) {
     s += "touched"; for (bool b : c.touched) s += b ? " 1" : " 0"; s += "\n";
     if (c.pre) s += vp::fmt("pre %d\n", c.pre);
     if (c.view) s += vp::fmt("view %d\n", c.view);
+    if (c.lock) s += vp::fmt("lock %u\n", c.lock);
     s += vp::fmt("bw %u %u", c.addr, c.n); for (uint16_t w : c.words) s += vp::fmt(" %u", w); s += "\n";
     return s;
 }
@@ -52,6 +53,15 @@ static std::string run_case(const Case &c, std::string &msg) {
         other.reset(new View(lv));
         if (register_init(&other->t).code != REG_INIT_SUCCESS) other.reset();   // (a free word in an area this view cannot describe: nothing to share then)
     }
+    // lock k: after initialisation the application flips the WRITEABLE flag of area (k-1)/2 (a run-time write-protect lock; k even: it takes the
+    // write callback away instead). Whether a word can be written is what the description says when the write happens.
+    TableD tl = c.t;
+    if (c.lock && (c.lock - 1) / 2 < c.t.areas.size()) {
+        size_t ai = (c.lock - 1) / 2;
+        if (c.lock & 1) { lv.areas[ai].flags ^= REG_AF_WRITEABLE; tl.areas[ai].writeable = !tl.areas[ai].writeable; }
+        else if (tl.areas[ai].has_write) { lv.areas[ai].write = nullptr; tl.areas[ai].has_write = false; }
+    }
+    const TableD &T = tl;
     rm::Space m; m.init(c.t);
     m.mem = c.content; m.touched = c.touched;
     lv.copy_from(m);
@@ -68,7 +78,7 @@ static std::string run_case(const Case &c, std::string &msg) {
         // far larger than any table: must be refused (first unmapped address, or a read-only area in front of it) without reading the caller's buffer
         uint64_t a = c.addr;
         bool ro = false; uint32_t ro_at = 0;
-        while (a < (1ull << 32) && m.mapped((uint32_t)a)) { const AreaD &ar = c.t.areas[(size_t)m.area_of((uint32_t)a)]; if (!ar.can_block_write() && !ro) { ro = true; ro_at = (uint32_t)a; } a = ar.end(); }
+        while (a < (1ull << 32) && m.mapped((uint32_t)a)) { const AreaD &ar = T.areas[(size_t)m.area_of((uint32_t)a)]; if (!ar.can_block_write() && !ro) { ro = true; ro_at = (uint32_t)a; } a = ar.end(); }
         vp::Block small(64 * 2);
         RegisterAccess r = register_block_write(&lv.t, c.addr, c.n, (RegisterAtom *)small.p);
         vp::count();
@@ -77,14 +87,14 @@ static std::string run_case(const Case &c, std::string &msg) {
         bool ok = (r.code == REG_ACCESS_NOENTRY && r.address == (uint32_t)a) || (r.code == REG_ACCESS_READONLY && ro && r.address == ro_at) || (r.code == REG_ACCESS_READONLY && !ro);
         if (r.code == REG_ACCESS_READONLY && !ro) {
             // a read-only area reached only after the hole (or after wrapping) is also "inside the request": accept its first address
-            ok = false; for (auto &ar : c.t.areas) if (!ar.can_block_write() && r.address == ar.base) ok = true;
+            ok = false; for (auto &ar : T.areas) if (!ar.can_block_write() && r.address == ar.base) ok = true;
         }
         if (!ok) { msg = vp::fmt("huge write: reported %s at %u; first unmapped address %llu%s", code_name(r.code), r.address, (unsigned long long)a, ro ? vp::fmt(", read-only from %u", ro_at).c_str() : ""); return "refused:wrong-address-huge"; }
         return "";
     }
     vp::Block buf((size_t)c.n * 2);
     if (c.n) memcpy(buf.p, c.words.data(), (size_t)c.n * 2);
-    Expect e = predict(c.t, m, c.addr, c.n, c.words.data());
+    Expect e = predict(T, m, c.addr, c.n, c.words.data());
     RegisterAccess a = register_block_write(&lv.t, c.addr, c.n, (RegisterAtom *)buf.p);
     vp::count();
     if (e.ok) {
@@ -237,6 +247,13 @@ static void run() {
                         if (!k3.empty()) vp::fail(k3, m3, ser_case(s3));
                         vp::cls("write-while-a-second-view-shares-the-areas");
                     }
+                    if ((pat == 0 || pat == 4 || pat == 5) && rng.chance(1, 5)) {
+                        // side branch: the same write after the application write-protected (or unlocked) one area at run time, without re-initialising
+                        Case s4 = c; s4.lock = 1 + (unsigned)rng.below(2 * t.areas.size());
+                        std::string m4, k4 = run_case(s4, m4);
+                        if (!k4.empty()) vp::fail(k4, m4, ser_case(s4));
+                        vp::cls("write-after-run-time-write-protect-change");
+                    }
                     // evolve the history
                     Expect e = predict(t, m, addr, n, c.words.data());
                     if (e.ok) { for (uint32_t i = 0; i < n; i++) m.word(addr + i) = c.words[i]; for (size_t ri : e.overlapped) m.touched[ri] = true; vp::cls("write-accepted"); }
@@ -270,6 +287,7 @@ static bool replay(const std::string &text) {
         if (w[0] == "content" && w.size() >= 2) { size_t i = strtoull(w[1].c_str(), 0, 10); if (i < c.content.size()) for (size_t k = 2; k < w.size(); k++) c.content[i].push_back((uint16_t)strtoul(w[k].c_str(), 0, 10)); }
         else if (w[0] == "pre" && w.size() >= 2) c.pre = atoi(w[1].c_str());
         else if (w[0] == "view" && w.size() >= 2) c.view = atoi(w[1].c_str());
+        else if (w[0] == "lock" && w.size() >= 2) c.lock = (unsigned)atoi(w[1].c_str());
         else if (w[0] == "touched") for (size_t k = 1; k < w.size(); k++) c.touched.push_back(w[k] == "1");
         else if (w[0] == "bw" && w.size() >= 3) { c.addr = (uint32_t)strtoul(w[1].c_str(), 0, 10); c.n = (uint32_t)strtoul(w[2].c_str(), 0, 10); for (size_t k = 3; k < w.size(); k++) c.words.push_back((uint16_t)strtoul(w[k].c_str(), 0, 10)); }
     }
